@@ -104,8 +104,10 @@ def tags(h):
                 f.add("eacces")
             else:
                 f.add("refused-tsync")
-            if e["hook"]:
+            if any(x["op"] == "spawn" for x in e["hook"]):
                 f.add("hook-spawn")
+            if any(x["op"] == "load" for x in e["hook"]):
+                f.add("overlapping-load")
             if e["nnp"]:
                 f.add("nnp")
             if e.get("pid") and e["pol"] == "valid" and any(x["op"] == "load" and x.get("pid") == e["pid"] and x["fid"] < e["fid"] and x["res"] == "nil" for x in h["hist"]):
@@ -152,8 +154,16 @@ def check(ctx, replay=None):
     # ... and with an enclosing filter that denies prctl(2), and loads that repeat a policy
     jobs.append(dict(module="LoaderGen", cfg=lf.gen_cfg("{pool, t1, t2}", 2, '{{}, {"TSYNC"}}', '{"valid", "allowall"}', "{t1, t2}", False, allow_deny=True, polids="{0, 1}"),
                      name="LoaderGenDeny", timeout=3000))
+    # ... and with calls that overlap: another wired thread loads a filter of its own while the call is parked at the schedule point
+    jobs.append(dict(module="LoaderGen", cfg=lf.gen_cfg("{pool, t1, t2}", 2, '{{}, {"TSYNC"}}', '{"valid"}', "{t1, t2}", False, allow_other=True),
+                     name="LoaderGenOther", timeout=3000))
+    jobs.insert(1, dict(module="Loader", cfg=lf.mc_cfg(threads="{t1, t2, t3}", maxloads=2, allow_deny=False, allow_other=True), name="Loader_3t_2l_overlap", timeout=3000))
     res = ctx.tlc_many(jobs, parallel=3)
-    extra = [h for h in lf.histories(res[-1]["out"]) if any(e["op"] == "denyprctl" or e.get("pid") or e.get("pol") == "allowall" for e in h["hist"])]
+    extra = [h for h in lf.histories(res[-1]["out"]) if any(x["op"] == "load" for e in h["hist"] for x in (e.get("hook") or []))]
+    ctx.cov["states"] -= res[-1]["distinct"]
+    ctx.cov["transitions"] -= res[-1]["generated"]
+    res = res[:-1]
+    extra += [h for h in lf.histories(res[-1]["out"]) if any(e["op"] == "denyprctl" or e.get("pid") or e.get("pol") == "allowall" for e in h["hist"])]
     ctx.cov["states"] -= res[-1]["distinct"]
     ctx.cov["transitions"] -= res[-1]["generated"]
     res = res[:-1]
@@ -222,7 +232,7 @@ def check(ctx, replay=None):
     ctx.cov["histories_generated"] = len(hists)
     ctx.cov["histories_replayed_without_a_file_system"] = njail
     ctx.cov["replayed_by_tag"] = seen_tags
-    for need in ("refused-tsync", "eacces", "enosys", "badflags", "oversize", "invalid", "ok-tsync", "ok-plain", "supported", "hook-spawn", "prctl-denied", "same-policy-again", "ok-allowall"):
+    for need in ("refused-tsync", "eacces", "enosys", "badflags", "oversize", "invalid", "ok-tsync", "ok-plain", "supported", "hook-spawn", "prctl-denied", "same-policy-again", "ok-allowall", "overlapping-load"):
         if not seen_tags.get(need):
             raise vlib.Machinery("no replayed history exercised '%s'" % need)
     ctx.cov["history_classes"] = nclasses
